@@ -22,7 +22,10 @@
 (*                                                                           *)
 (* Directory names map through path.Dir of the reported file: DirOf.         *)
 (* The deviations a realistic edit could introduce are named switches        *)
-(* (CODE values first): Bcast, IfN, Loop, Delete.                            *)
+(* (CODE values first): Bcast, IfN, Loop, Delete, NRead.                     *)
+(* NRead = "locked": n := len(p.changed) is read under the mutex (FCRecord); *)
+(* NRead = "before-lock": it is read before p.mutex.Lock() (FCPreRead), so   *)
+(* the broadcast decision may rest on a stale count.                         *)
 EXTENDS Naturals, Sequences, FiniteSets, TLC
 
 CONSTANTS Producers,   \* goroutines calling FileChanged
@@ -36,7 +39,8 @@ CONSTANTS Producers,   \* goroutines calling FileChanged
           Bcast,       \* "broadcast" (code) | "signal"
           IfN,         \* "eq0" (code: if n == 0) | "ne0"
           Loop,        \* "for" (code: for len(changed)==0 {Wait}) | "if"
-          Delete       \* TRUE (code: delete(p.changed, dir)) | FALSE
+          Delete,      \* TRUE (code: delete(p.changed, dir)) | FALSE
+          NRead        \* "locked" (code: n read inside the critical section) | "before-lock"
 
 \* path.Dir on the file names used by the configurations and by the harness.
 StdDirOf == [f \in {"a/x.go", "a/y.xgo", "b/x.go", "b/s/z.go", "x.go"} |->
@@ -84,14 +88,19 @@ Goto(q, l) == pc' = [pc EXCEPT ![q] = l]
 FCStart(p, f) == /\ pc[p] = "idle" /\ calls[p] < MaxReports
                  /\ arg' = [arg EXCEPT ![p] = f]
                  /\ calls' = [calls EXCEPT ![p] = @ + 1]
-                 /\ Goto(p, "fc_lock")
+                 /\ Goto(p, IF NRead = "locked" THEN "fc_lock" ELSE "fc_pre")
                  /\ UNCHANGED <<mutex, waitset, changed, pn, res, rep, fet, pend>>
+\* only with NRead = "before-lock": n := len(p.changed) without holding the mutex
+FCPreRead(p) == /\ pc[p] = "fc_pre"
+                /\ pn' = [pn EXCEPT ![p] = Cardinality(changed)]
+                /\ Goto(p, "fc_lock")
+                /\ UNCHANGED <<mutex, waitset, changed, arg, res, calls, rep, fet, pend>>
 FCLock(p) == /\ pc[p] = "fc_lock" /\ mutex = NoProc
              /\ mutex' = p /\ Goto(p, "fc_rec")
              /\ UNCHANGED <<waitset, changed, arg, pn, res, calls, rep, fet, pend>>
 FCRecord(p) == /\ pc[p] = "fc_rec"
                /\ LET d == DirOf[arg[p]] IN
-                    /\ pn' = [pn EXCEPT ![p] = Cardinality(changed)]
+                    /\ pn' = IF NRead = "locked" THEN [pn EXCEPT ![p] = Cardinality(changed)] ELSE pn
                     /\ changed' = changed \cup {d}
                     /\ rep' = [rep EXCEPT ![d] = @ + 1]
                     /\ pend' = pend \cup {d}
@@ -174,7 +183,7 @@ AuxRet(a) == /\ pc[a] = "x_ret" /\ Goto(a, "idle")
 
 ----------------------------------------------------------------------------
 \* steps a goroutine takes on its own once the call has started
-ProdStep(p) == FCLock(p) \/ FCRecord(p) \/ FCUnlock(p) \/ FCBcast(p) \/ FCRet(p)
+ProdStep(p) == FCPreRead(p) \/ FCLock(p) \/ FCRecord(p) \/ FCUnlock(p) \/ FCBcast(p) \/ FCRet(p)
 ConsStep(c) == FetchLock(c) \/ FetchCheck(c) \/ FetchRelock(c) \/ FetchTake(c)
                \/ FetchUnlock(c) \/ FetchRet(c)
 AuxStep(a)  == AuxLock(a) \/ AuxUnlock(a) \/ AuxRet(a)
